@@ -607,6 +607,8 @@ def with_decimal(inner, quick, thorough):
 
 
 REGISTRY["C06"]["run"] = with_decimal(REGISTRY["C06"]["run"], 150, 6000)
+for _pid in ("C01", "C03", "C05", "C14"):
+    REGISTRY[_pid]["run"] = with_decimal(REGISTRY[_pid]["run"], 150, 6000)
 REGISTRY["C04"]["run"] = with_statefn(REGISTRY["C04"]["run"], {"canAdd"}, 150, 6000)
 REGISTRY["C02"]["run"] = with_statefn(REGISTRY["C02"]["run"], {"contrib"}, 150, 6000)
 REGISTRY["C13"]["run"] = with_decimal(with_statefn(REGISTRY["C13"]["run"], {"canPut"}, 150, 6000), 150, 6000)
@@ -703,3 +705,7 @@ REGISTRY["C16"] = dict(run=_pe.run_c16, footprint_doc="write_simple_json / read_
 REGISTRY["C20"] = dict(run=_pe.run_c20, footprint_doc="sub-project setters; parent run (all phases)")
 for _p in ("C16", "C20"):
     FOOTPRINT.setdefault(_p, (["*"], None))
+
+
+for _pid in ("C02", "C04", "C07", "C10"):
+    REGISTRY[_pid]["run"] = with_decimal(REGISTRY[_pid]["run"], 150, 6000)
